@@ -204,9 +204,9 @@ def usedOf (trunc : Bool) (cods : List (List Char)) : List (List Char) :=
 
 theorem usedOf_cons (trunc : Bool) (c : List Char) (cs : List (List Char)) :
     usedOf trunc (c :: cs) = if trunc = true ∧ isStop c = true then [c] else c :: usedOf trunc cs := by
-  unfold usedOf
-  cases trunc <;> simp [uptoFirstStop]
-  split <;> simp_all
+  cases trunc
+  · simp [usedOf]
+  · simp only [usedOf, if_true, uptoFirstStop, true_and]
 
 /-- **C05-T3** on codon lists -/
 theorem translateLoop_spec (trunc strict : Bool) (t : Nat) (starts : List (List Char))
@@ -238,9 +238,11 @@ theorem translateLoop_spec (trunc strict : Bool) (t : Nat) (starts : List (List 
     rw [isStopCodon_eq ch]
     by_cases hS : i = 0 ∧ ch ∈ starts
     · -- start codon in first place: 'M'
-      simp only [hS, and_self, decide_true, if_true, atg_translates, pure, Except.pure]
-      have hhead : okAA starts i ch 'M' = true := by unfold okAA; simp [hS]
-      have hnr : (!(decide (i = 0 ∧ ch ∈ starts)) && (standardCode ch).isNone) = false := by simp [hS]
+      obtain ⟨hi, hmem⟩ := hS
+      subst hi
+      simp only [hmem, and_self, decide_true, if_true, atg_translates, pure, Except.pure]
+      have hhead : okAA starts 0 ch 'M' = true := by unfold okAA; simp [hmem]
+      have hnr : (!(decide (0 = 0 ∧ ch ∈ starts)) && (standardCode ch).isNone) = false := by simp [hmem]
       by_cases hT : trunc = true ∧ isStop ch = true
       · simp only [hT, and_self, if_true]
         by_cases hre : rest.isEmpty = true
@@ -248,25 +250,25 @@ theorem translateLoop_spec (trunc strict : Bool) (t : Nat) (starts : List (List 
           subst this
           simp only [List.isEmpty_nil, not_true_eq_false, and_false, if_false, translateLoop, pure, Except.pure]
           constructor
-          · intro h; simp [strictRefuses, hS] at h
+          · intro h; simp [strictRefuses, hmem] at h
           · intro _; exact ⟨['M'], rfl, by simp [okProteinFrom, hhead]⟩
         · simp only [hre, not_false_eq_true, and_self, if_true]
           constructor
-          · intro h; simp [strictRefuses, hS] at h
+          · intro h; simp [strictRefuses, hmem] at h
           · intro _; exact ⟨['M'], rfl, by simp [okProteinFrom, hhead]⟩
       · have hcond : ¬ (trunc = true ∧ isStop ch = true ∧ ¬ rest.isEmpty = true) := by
           intro h; exact hT ⟨h.1, h.2.1⟩
         simp only [hT, if_false, hcond]
         constructor
         · intro h
-          have h2 : strictRefuses starts (i + 1) (usedOf trunc rest) = true := by
+          have h2 : strictRefuses starts (0 + 1) (usedOf trunc rest) = true := by
             have := h.2; simp only [strictRefuses, hnr, Bool.false_or] at this; exact this
           have := ih.1 ⟨h.1, h2⟩
-          cases hr : translateLoop trunc (t : Int) strict (i + 1) rest with
+          cases hr : translateLoop trunc (t : Int) strict (0 + 1) rest with
           | error e => simp
           | ok v => rw [hr] at this; simp at this
         · intro h
-          have h2 : ¬ (strict = true ∧ strictRefuses starts (i + 1) (usedOf trunc rest) = true) := by
+          have h2 : ¬ (strict = true ∧ strictRefuses starts (0 + 1) (usedOf trunc rest) = true) := by
             intro hh; apply h; refine ⟨hh.1, ?_⟩
             simp only [strictRefuses, hnr, Bool.false_or]; exact hh.2
           obtain ⟨prot, hp, hq⟩ := ih.2 h2
